@@ -29,6 +29,7 @@ NewState == [sc |-> 0, memo |-> <<>>]      \* memo: function <<o, idg>> -> [res,
 
 HistAgrees(e) == /\ e.gotBefore = e.staleBefore /\ e.gotAfter = e.staleAfter
                  /\ e.other = 0 /\ e.empty
+                 /\ e.gotLayers = e.layersLeft          \* the recorded layer list (Layers()) is empty again
 HistDirty(e) == e.gotBefore + e.gotAfter > 0
 
 JudgeSer(st, e) ==
